@@ -582,14 +582,18 @@ class PortNamespace(collections.abc.MutableMapping, Port):
 
             if isinstance(port, PortNamespace):
                 # If the name does not appear at the start of any of the include rules we continue:
-                if include and not any(
+                if include is not None and not any(
                     rule == port_name or rule.startswith(port_name + self.NAMESPACE_SEPARATOR) for rule in include
                 ):
                     continue
 
-                # Determine the sub exclude and include rules for this specific namespace
+                # Determine the sub exclude and include rules for this specific namespace. A namespace that is included
+                # as a whole is taken with everything in it (an empty list of include rules selects nothing)
                 sub_exclude = self.strip_namespace(port_name, self.NAMESPACE_SEPARATOR, exclude)
-                sub_include = self.strip_namespace(port_name, self.NAMESPACE_SEPARATOR, include)
+                if include is not None and port_name in include:
+                    sub_include = None
+                else:
+                    sub_include = self.strip_namespace(port_name, self.NAMESPACE_SEPARATOR, include)
 
                 # Create a new namespace at `port_name` and copy the original port namespace itself such that we keep
                 # all its mutable properties, but reset its ports, since those will be taken care of by the recursive
@@ -600,7 +604,7 @@ class PortNamespace(collections.abc.MutableMapping, Port):
                 portnamespace.absorb(port, sub_exclude, sub_include)
             else:
                 # If include rules are specified but the port name does not appear, simply skip it
-                if include and port_name not in include:
+                if include is not None and port_name not in include:
                     continue
 
                 self[port_name] = copy.deepcopy(port)
